@@ -15,7 +15,7 @@ ANCHORS = ["CommonRoadSolutionWriter.dump", "CommonRoadSolutionWriter._create_su
            "CommonRoadSolutionReader._parse_state", "CommonRoadSolutionReader._parse_trajectory"]
 REQUIRED = ["kind.PM", "kind.ST", "kind.KS", "kind.KST", "kind.MB", "kind.Input", "kind.PMInput", "xsd.validated",
             "cooperative", "non-ascending-input", "meta.date.none", "meta.date.micro", "meta.processor_name",
-            "meta.computation_time", "pretty", "not-pretty", "file-route"]
+            "meta.computation_time", "pretty", "not-pretty", "file-route", "pp-id-reassigned-after-construction"]
 ASSUMPTIONS = ["state values are finite python floats / ints (ints up to 10^6 so that float() is exact)",
                "XSD validation only for documents whose trajectory types the schema defines, generated in schema order"]
 SHARDS = {"quick": 2, "thorough": 16}
@@ -60,6 +60,16 @@ def run(ctx):
         except Exception as e:  # noqa
             ctx.violation("C14/construct/raises-%s" % type(e).__name__, "kinds %s: %r" % (kinds, e), kinds)
             continue
+        if i % 5 == 4:
+            # planning_problem_id is a plain public attribute: a solution whose ids were (re-)assigned after construction
+            # is still a solution, and the ids it has NOW are the ones to be written
+            pss = sol.planning_problem_solutions
+            new_ids = [p["pp_id"] for p in spec["pps"]][::-1] if len(pss) > 1 and i % 2 == 0 else \
+                [p["pp_id"] + 10000 for p in spec["pps"]]
+            for ps, p, nid in zip(pss, spec["pps"], new_ids):
+                ps.planning_problem_id = nid
+                p["pp_id"] = nid
+            ctx.feature("pp-id-reassigned-after-construction")
         ctx.evaluation()
         for k in kinds:
             ctx.feature("kind." + k)
